@@ -18,7 +18,8 @@ from vfw.gen import schemas as sg
 PATH_TEXT = st.text(alphabet=st.sampled_from("abcxyzXYZ019_-+%&=?#.;:, é"), min_size=1, max_size=6)
 HEADER_TEXT = st.text(alphabet=st.sampled_from("abcxyzXYZ019_-+%&=?#/.;:,é"), max_size=6)
 QUERY_TEXT = sg.TEXT
-NAMES = {"query": ["q", "id", "filter", "X-Val"], "header": ["X-Val", "X-Id", "If-Thing"], "cookie": ["sid", "c2"], "path": ["id", "sub"]}
+# (the last name of query / header / cookie is also the name of the apiKey security scheme of that location)
+NAMES = {"query": ["q", "id", "filter", "X-Val", "api_key"], "header": ["X-Val", "X-Id", "If-Thing", "X-Api-Key"], "cookie": ["sid", "c2", "token"], "path": ["id", "sub"]}
 PRIMITIVES = ("integer", "number", "string", "boolean")
 
 
@@ -92,6 +93,14 @@ def operation_plan(draw, dialects=("3.0", "3.0", "3.1", "2.0"), max_params=4, bo
     if draw(st.integers(0, 3)) == 0:
         kind = draw(st.sampled_from(["apiKey-header", "apiKey-query", "apiKey-cookie", "basic", "bearer"] if dialect != "2.0" else ["apiKey-header", "apiKey-query", "basic"]))
         plan["security"] = {"kind": kind, "name": {"apiKey-header": "X-Api-Key", "apiKey-query": "api_key", "apiKey-cookie": "token"}.get(kind, "Authorization")}
+        if kind.startswith("apiKey-") and draw(st.booleans()):
+            # the document also declares a parameter under the scheme's name and location (with a schema of its own)
+            loc = kind.split("-")[1]
+            name = plan["security"]["name"]
+            if not any(p["in"] == loc and p["name"].lower() == name.lower() for p in params):
+                p = draw(parameter(dialect, loc, name))
+                p["level"], p["ref"] = "operation", False
+                params.append(p)
     return plan
 
 
